@@ -34,6 +34,7 @@ import (
 	"encoding/hex"
 	"fmt"
 	"math/big"
+	"os"
 	"path/filepath"
 	"runtime"
 	"runtime/debug"
@@ -66,6 +67,7 @@ import (
 type outcome struct {
 	Panicked bool
 	Site     string
+	Line     string
 	Class    string
 	Value    string
 }
@@ -101,14 +103,69 @@ func classify(e interface{}) string {
 func guard(f func()) (o outcome) {
 	defer func() {
 		if e := recover(); e != nil {
-			o = outcome{Panicked: true, Site: evid.PanicSite(debug.Stack()), Class: classify(e), Value: fmt.Sprint(e)}
+			st := debug.Stack()
+			o = outcome{Panicked: true, Site: evid.PanicSite(st), Line: panicLine(st), Class: classify(e), Value: fmt.Sprint(e)}
 		}
 	}()
 	f()
 	return
 }
 
-func sig(o outcome) string { return "C03|panic|" + o.Site + "|" + o.Class }
+// sig: property | clause | repository function that panicked | panic class | source text of the
+// panicking statement (whitespace-trimmed; no line numbers, so unrelated edits do not move it,
+// and two different out-of-range accesses in one function get two signatures).
+func sig(o outcome) string { return "C03|panic|" + o.Site + "|" + o.Class + "|" + o.Line }
+
+var (
+	srcMu    sync.Mutex
+	srcCache = map[string][]string{}
+)
+
+// panicLine returns the trimmed source line of the first repository frame below the panic.
+func panicLine(stack []byte) string {
+	lines := strings.Split(string(stack), "\n")
+	seen := false
+	for i := 0; i+1 < len(lines); i++ {
+		l := lines[i]
+		if strings.HasPrefix(l, "panic(") || strings.Contains(l, "runtime.gopanic") || strings.HasPrefix(l, "runtime.panic") || strings.HasPrefix(l, "runtime.goPanic") {
+			seen = true
+			continue
+		}
+		if !seen || strings.HasPrefix(l, "\t") || strings.HasPrefix(l, "runtime.") || !strings.Contains(l, "Elastos.ELA/") {
+			continue
+		}
+		loc := strings.TrimSpace(lines[i+1])
+		if k := strings.LastIndex(loc, " +0x"); k > 0 {
+			loc = loc[:k]
+		}
+		k := strings.LastIndex(loc, ":")
+		if k < 0 {
+			return "?"
+		}
+		file := loc[:k]
+		var n int
+		fmt.Sscanf(loc[k+1:], "%d", &n)
+		srcMu.Lock()
+		src, ok := srcCache[file]
+		if !ok {
+			b, err := os.ReadFile(file)
+			if err == nil {
+				src = strings.Split(string(b), "\n")
+			}
+			srcCache[file] = src
+		}
+		srcMu.Unlock()
+		if n < 1 || n > len(src) {
+			return "?"
+		}
+		t := strings.Join(strings.Fields(src[n-1]), " ")
+		if len(t) > 90 {
+			t = t[:90]
+		}
+		return t
+	}
+	return "?"
+}
 
 // ---------------------------------------------------------------------------------------------
 // seam 1: script classifiers over a grammar and all prefixes
